@@ -79,15 +79,28 @@ func shardC19(c *Ctx, shard, nshards int) {
 		}
 	}
 	c19Special(c, shard, nshards)
+	if shard == 0 {
+		c19PinnedSmall(c)
+	}
 	for i := 0; i < n; i++ {
 		if i%nshards != shard {
 			continue
 		}
 		r := c.Rng("case", i)
 		scale := r.LogR(0.3, 30)
+		if r.P(0.25) { // the same part in other units
+			k := pickOne(r, []float64{1e-5, 1e-4, 1e-3, 1e3, 1e5})
+			if (i/8)%2 == 1 && k < 1 {
+				// DualContouringV2 works with absolute step sizes (normal estimation 1e-3, ray march 1e-4): parts of a few
+				// thousandths of a unit come out open - a known finding pinned in c19PinnedSmall, not generated here
+				k = 1 / k
+			}
+			scale *= k
+		}
 		var s sdf.SDF3
 		var desc string
 		vol := 0.0
+		minFactor := 1.0
 		switch i % 8 {
 		case 0:
 			rad := scale * r.R(0.6, 1)
@@ -126,6 +139,14 @@ func shardC19(c *Ctx, shard, nshards int) {
 			s, _ = sdf.Box3D(sz, 0)
 			desc, vol = fmt.Sprintf("box(%.4g,%.4g,%.4g)", sz.X, sz.Y, sz.Z), sz.X*sz.Y*sz.Z
 		}
+		if r.P(0.25) {
+			// squashed / stretched: the field is no longer a distance (it over- or underestimates by the factors)
+			f := v3.Vec{X: r.LogR(0.25, 2.5), Y: r.LogR(0.25, 2.5), Z: r.LogR(0.25, 2.5)}
+			s = sdf.Transform3D(s, sdf.Scale3d(f))
+			desc += fmt.Sprintf(" scaled(%.3g,%.3g,%.3g)", f.X, f.Y, f.Z)
+			vol *= f.X * f.Y * f.Z
+			minFactor = math.Min(1, f.MinComponent())
+		}
 		if r.P(0.5) && i%8 != 0 {
 			ax := v3.Vec{X: r.N(), Y: r.N(), Z: r.N()}.Normalize()
 			a := r.R(0, 2*math.Pi)
@@ -133,6 +154,10 @@ func shardC19(c *Ctx, shard, nshards int) {
 			desc += fmt.Sprintf(" rot(%.3g)", a)
 		}
 		t := v3.Vec{X: r.R(-2, 2) * scale, Y: r.R(-2, 2) * scale, Z: r.R(-2, 2) * scale}
+		if r.P(0.3) { // far from the origin relative to its size
+			t = t.MulScalar(pickOne(r, []float64{1e2, 1e4, 1e5}))
+			desc += fmt.Sprintf(" at %v", t)
+		}
 		s = sdf.Transform3D(s, sdf.Translate3d(t))
 		// enlarged, possibly non-cubic sampled box
 		bb := s.BoundingBox()
@@ -208,7 +233,7 @@ func shardC19(c *Ctx, shard, nshards int) {
 			}
 		}
 		c.MaxObs("worst_vertex_distance_over_cell_diagonal", worstF/diag)
-		if worstF > diag {
+		if worstF*minFactor > diag { // a squashed field reports up to 1/minFactor times the true distance
 			c.Violate("", fmt.Sprintf("dc-far-vertex %s: a vertex is %g from the surface, cell diagonal %g", tag, worstF, diag), cs)
 		}
 		if outside > 0 {
@@ -332,6 +357,32 @@ func maxInt2(a, b int) int {
 		return a
 	}
 	return b
+}
+
+// c19PinnedSmall: known finding, identified by this input.
+const c19KeySmall = "dcv2-box-1e-3-units-26-cells"
+
+func c19PinnedSmall(c *Ctx) {
+	b, _ := sdf.Box3D(v3.Vec{X: 1e-3, Y: 2e-3, Z: 1e-3}, 0)
+	box := b.BoundingBox().Enlarge(v3.Vec{X: 4e-4, Y: 4e-4, Z: 4e-4})
+	wrapped := &fieldSDF3{bb: box, fn: b.Evaluate}
+	ts := c19Render("v2", wrapped, 26)
+	c.Eval(1)
+	cell := box.Size().MaxComponent() / 26
+	rep := checkClosed3(ts, 1e-6*cell)
+	// control: the same part in units 1000 times smaller (numbers 1000 times larger)
+	b2, _ := sdf.Box3D(v3.Vec{X: 1, Y: 2, Z: 1}, 0)
+	box2 := b2.BoundingBox().Enlarge(v3.Vec{X: 0.4, Y: 0.4, Z: 0.4})
+	ts2 := c19Render("v2", &fieldSDF3{bb: box2, fn: b2.Evaluate}, 26)
+	rep2 := checkClosed3(ts2, 1e-6*cell*1000)
+	c.Eval(1)
+	if rep2.Unbalanced > 0 || len(ts2) < 8 {
+		c.Violate("", fmt.Sprintf("dc-open v2 cells=26 Box3D(1,2,1) in a box 0.4 larger: %d unmatched directed edges in %d triangles", rep2.Unbalanced, len(ts2)), map[string]any{"renderer": "v2", "cells": 26, "box": box2})
+	}
+	if rep.Unbalanced > 0 || len(ts) < 8 {
+		c.Violate(c19KeySmall, fmt.Sprintf("dc-open-small-units v2 cells=26 Box3D(0.001,0.002,0.001) in a box 0.0004 larger: %d unmatched directed edges in %d triangles; the same part with all numbers 1000x larger gave %d unmatched edges in %d triangles "+
+			"(DualContouringV2 uses absolute step sizes: normal estimation 1e-3, ray march epsilon 1e-4)", rep.Unbalanced, len(ts), rep2.Unbalanced, len(ts2)), map[string]any{"renderer": "v2", "cells": 26, "box": box})
+	}
 }
 
 // c19Special: (a) surfaces passing exactly through grid vertices (sampled box exactly 2x / 4x the shape, power-of-two cells),
